@@ -301,10 +301,9 @@ def task_total(args):
 
 
 def _valid(s):
-    import ast
-
+    """valid Python = the compiler accepts it (ast.parse alone lets `return` outside a function through)"""
     try:
-        ast.parse(s)
+        compile(s, "<text>", "exec", dont_inherit=True)
         return True
     except (SyntaxError, ValueError):
         return False
